@@ -226,6 +226,81 @@ fn mutate_structured(r: &mut Rng, data: &mut Vec<u8>) -> &'static str {
     }
 }
 
+/// XML-aware mutation: element text (the bytes between `>` and `<`) is what the per-type readers parse with
+/// fixed widths, split points and number parsers. Keeps the document well-formed so the mutation reaches them.
+fn mutate_xml_text(r: &mut Rng, data: &mut Vec<u8>) -> &'static str {
+    // text runs of at least one byte that do not contain markup
+    let mut runs: Vec<(usize, usize)> = vec![];
+    let mut i = 0;
+    while i < data.len() {
+        if data[i] == b'>' {
+            let s = i + 1;
+            let mut e = s;
+            while e < data.len() && data[e] != b'<' {
+                e += 1;
+            }
+            if e > s && e < data.len() && data[s..e].iter().any(|b| !b.is_ascii_whitespace()) && !data[s..e].contains(&b'&') {
+                runs.push((s, e));
+            }
+            i = e;
+        } else {
+            i += 1;
+        }
+    }
+    if runs.is_empty() {
+        return "noop";
+    }
+    let (s, e) = *r.pick(&runs);
+    let len = e - s;
+    const MB: [&str; 6] = ["\u{e9}", "\u{2c98}", "\u{1f600}", "\u{7ff}", "\u{ffff}", "\u{10ffff}"];
+    match r.below(8) {
+        0 | 1 | 2 => {
+            // same byte length, fewer characters: k ASCII bytes become one k-byte character
+            let c = *r.pick(&MB);
+            let k = c.len();
+            if len < k {
+                data.splice(s..e, c.bytes());
+                return "xml-text-multibyte-replace";
+            }
+            let at = s + r.below(len - k + 1);
+            data.splice(at..at + k, c.bytes());
+            "xml-text-multibyte-same-length"
+        }
+        3 => {
+            let c = *r.pick(&MB);
+            let at = s + r.below(len + 1);
+            data.splice(at..at, c.bytes());
+            "xml-text-multibyte-insert"
+        }
+        4 => {
+            let at = s + r.below(len);
+            let c: &[u8] = *r.pick(&[&b"+"[..], b"-", b" ", b"e", b".", b"0x", b"_", b",", b"NaN", b"INF", b"-0", b"1e999", b"\t", b"\n"]);
+            data.splice(at..at + 1, c.iter().copied());
+            "xml-text-number-syntax"
+        }
+        5 => {
+            data.drain(s..e);
+            "xml-text-emptied"
+        }
+        6 => {
+            // one character short / one character long
+            if r.chance(1, 2) {
+                data.remove(s + r.below(len));
+            } else {
+                let b = data[s + r.below(len)];
+                data.insert(s + r.below(len + 1), b);
+            }
+            "xml-text-length-off-by-one"
+        }
+        _ => {
+            let n = *r.pick(&[33usize, 64, 255, 256, 4096]);
+            let b = data[s];
+            data.splice(s..e, std::iter::repeat(b).take(n));
+            "xml-text-long-run"
+        }
+    }
+}
+
 fn xml_bomb(r: &mut Rng) -> (Vec<u8>, &'static str) {
     match r.below(6) {
         0 => {
@@ -357,12 +432,37 @@ fn thread_cpu_us() -> u64 {
     ts.tv_sec as u64 * 1_000_000 + ts.tv_nsec as u64 / 1000
 }
 
+/// Digest of a decoded DOM for "same bytes, same result" comparisons. The value of the `UniqueId` property is left
+/// out: when a (mutated) file repeats an id, WeakDom replaces the later one with `UniqueId::now()` (C12), which is
+/// different on every decode by design.
+fn stable_digest(d: &rbx_dom_weak::WeakDom) -> String {
+    fn mask(v: &mut J) {
+        match v {
+            J::Object(o) => {
+                if let Some(p) = o.get_mut("props").and_then(|p| p.as_object_mut()) {
+                    if let Some(u) = p.get_mut("UniqueId") {
+                        if u["t"] == "UniqueId" {
+                            *u = json!({"t": "UniqueId"});
+                        }
+                    }
+                }
+                for (_, x) in o.iter_mut() {
+                    mask(x);
+                }
+            }
+            J::Array(a) => a.iter_mut().for_each(mask),
+            _ => {}
+        }
+    }
+    let mut dump = canon::dump_decoded(d);
+    mask(&mut dump);
+    format!("{:016x}", canon::digest(&dump))
+}
+
 fn decode_any<R: Read>(decoder: &str, r: R) -> Result<String, String> {
     match decoder {
-        "bin" => rbx_binary::from_reader(r).map(|d| format!("{:016x}", canon::digest(&canon::dump_decoded(&d)))).map_err(|e| e.to_string()),
-        "xml" => rbx_xml::from_reader(r, crate::rt::xml_options(XmlMode::Unknown).1)
-            .map(|d| format!("{:016x}", canon::digest(&canon::dump_decoded(&d))))
-            .map_err(|e| e.to_string()),
+        "bin" => rbx_binary::from_reader(r).map(|d| stable_digest(&d)).map_err(|e| e.to_string()),
+        "xml" => rbx_xml::from_reader(r, crate::rt::xml_options(XmlMode::Unknown).1).map(|d| stable_digest(&d)).map_err(|e| e.to_string()),
         _ => rbx_dom_weak::types::Attributes::from_reader(r)
             .map(|a| format!("{:016x}", canon::digest(&canon::attributes(&a, &|_| J::Null))))
             .map_err(|e| e.to_string()),
@@ -746,7 +846,13 @@ pub fn main(a: &Args) {
                         let n = 1 + r.below(3);
                         let mut hows = vec![];
                         for _ in 0..n {
-                            let h = if kind == "bin-none" && r.chance(1, 2) { mutate_structured(&mut r, &mut d) } else { mutate(&mut r, &mut d, &other) };
+                            let h = if kind == "bin-none" && r.chance(1, 2) {
+                                mutate_structured(&mut r, &mut d)
+                            } else if dec == "xml" && r.chance(1, 2) {
+                                mutate_xml_text(&mut r, &mut d)
+                            } else {
+                                mutate(&mut r, &mut d, &other)
+                            };
                             hows.push(h);
                         }
                         (d, format!("{}:{}", kind, hows.join("+")))
